@@ -166,6 +166,28 @@ def _pybind(mod: Any, fname: str, call: list[dict]) -> list[bool]:
 
 
 def observe_module(groups: list[dict], checker: Any) -> list[dict]:
+    """Observe one module; if the real checker raises, isolate the call it raises on: an exception where the
+    property needs a verdict is recorded as st="raised" (TLC reports it as viol:Raised)."""
+    try:
+        return _observe_module(groups, checker)
+    except core.MachineryError:
+        raise
+    except Exception as exc:  # the real code raised
+        if len(groups) > 1:
+            return [o for g in groups for o in observe_module([g], checker)]
+        g = groups[0]
+        if len(g["calls"]) > 1:
+            parts = [observe_module([{"sigs": g["sigs"], "calls": [c]}], checker)[0] for c in g["calls"]]
+            return [{"sigs": g["sigs"], "calls": [p["calls"][0] for p in parts]}]
+        src, _where = render_module(groups)
+        mod = pyz.make_module(src)
+        rec = {"call": g["calls"][0], "steps": [], "pybind": _pybind(mod, "f0", g["calls"][0]),
+               "real": {"st": "raised", "ty": [], "anyk": "", "code": type(exc).__name__}}
+        typing.clear_overloads()
+        return [{"sigs": g["sigs"], "calls": [rec]}]
+
+
+def _observe_module(groups: list[dict], checker: Any) -> list[dict]:
     from pyanalyze import _verif_trace
 
     src, where = render_module(groups)
@@ -206,10 +228,11 @@ def observe_module(groups: list[dict], checker: Any) -> list[dict]:
         if revealed is None:
             raise core.MachineryError(f"no reveal_type output on line {ln}\n{src}")
         runs = hook_steps.get(ln) or _rec["by_line"].get(ln) or []      # the hook's events when /repo has the hook
-        if not runs:
+        crashed = "internal_error" in codes      # the visitor turns an exception of the checker into this diagnostic
+        if not runs and not crashed:
             raise core.MachineryError(f"OverloadedSignature.check_call was not reached on line {ln}\n{src}")
-        steps = runs[-1]
-        real = {"st": "err" if codes else "ok", "ty": revealed["ty"], "anyk": revealed["anyk"],
+        steps = runs[-1] if runs else []
+        real = {"st": "raised" if crashed else "err" if codes else "ok", "ty": revealed["ty"], "anyk": revealed["anyk"],
                 "code": "+".join(sorted(set(codes)))}
         rec = {"call": call, "real": real, "steps": steps, "pybind": _pybind(mod, f"f{g}", call)}
         if any(r != steps for r in runs):
@@ -247,7 +270,7 @@ def _nontrivial(rec: dict) -> bool:
     return len(rec["steps"]) >= 2 or any("|" in a["ty"] or a["ty"] == "any" for a in rec["call"])
 
 
-def _adjudicate(observed: list[dict], lines_per_run: int, threads: int = 8) -> tuple[dict, dict]:
+def _adjudicate(observed: list[dict], lines_per_run: int, threads: int = 12) -> tuple[dict, dict]:
     """core.adjudicate on several TLC processes at once (core.new_dir is not thread-safe: a lost race
     for a scratch directory name is simply retried)."""
     from concurrent.futures import ThreadPoolExecutor
@@ -283,7 +306,7 @@ def judge(check: core.Check, cases: list[dict], label: str) -> dict[str, int]:
         o["tid"] = tid
     ncalls = sum(len(o["calls"]) for o in observed)
     t1 = time.time()
-    lines_per_run = max(50, min(2000, (len(observed) + 7) // 8))
+    lines_per_run = max(50, min(1500, (len(observed) + 11) // 12))
     verdicts, stats = _adjudicate(observed, lines_per_run)
     PHASES.append({"what": label, "calls": ncalls, "real_checker_s": round(t1 - t0, 1), "tlc_adjudication_s": round(time.time() - t1, 1)})
     stats["observations"] = ncalls          # one observation = one real call checked by the real visitor
@@ -378,7 +401,7 @@ def run(check: core.Check) -> None:
         check.cov["fixcheck"] = ("model with the proposed repair satisfies PropertyHoldsStrict on the q_types2 slice"
                                  if fx.ok else f"model with the proposed repair still violates: {fx.violated}")
     # 2. S->C: replay through the real visitor, adjudicated by TLC
-    limit = 110000 if quick else 800000
+    limit = 110000 if quick else 500000
     uniq = {core.canon([c["sigs"], c["call"]]): c for c in cases}
     cases = list(uniq.values())
     check.cov["model_cases"] = len(cases)
@@ -406,7 +429,7 @@ def run(check: core.Check) -> None:
     )
     judge(check, cases, "tlc-exhaustive")
     # 3. beyond the exhaustive bound: TLC simulation of 2-4 overloads with every feature on
-    num = 1500 if quick else 20000
+    num = 1500 if quick else 10000
     sim = core.require_ok(
         core.run_tlc("OverloadsEmit", "Overloads.sim.cfg", workers=1, simulate=f"num={num}", depth=40,
                      seed=check.seed + 8, timeout=2400),
